@@ -66,6 +66,15 @@ CLAIMS["C12"] = ("typestate extraction by abstract interpretation of the explici
  "Trusted: go/ssa + go/types, the contract automaton transcribed from datamodel/nodeBuilder.go and HACKME_builderBehaviors.md. Not covered: bindnode has no explicit state machine to extract; generated assemblers' automata.",
  "DESIGN.md section 3, C12")
 
+CLAIMS["C02"] = ("abstract interpretation of the sort comparators over the finite (length order x byte order) lattice; enum-fact path-sensitive reachability (sort before emit per mode); constant/table agreement; term decomposition of EncodedLength sums; effect analysis (stateless encoder)",
+ "What the repository owns of DAG-CBOR canonical form, decided structurally: the registered 0x71 encoder runs with RFC7049 sorting and links as constants; the less functions are exactly 'shorter first then bytewise' / 'bytewise' on all 7 feasible key relations; under each sort mode every key emission comes from the sorted collection after the sort; UintNode probes in marshal and EncodedLength; link emission behind Cid.Defined, tag 42, exactly one zero prefix byte, Tagged cleared on every path; no state between encodes (fresh token, no pools, no globals); head-size table equals the CBOR boundaries and each length-prefixed arm sizes its head for exactly the payload added. The canonical byte form itself is refmt's.",
+ "Trusted: go/ssa + go/types, refmt/cbor emits shortest-form heads and 64-bit floats, sort.Slice. Not covered: bytes equal to the canonical form, decode(encode(v)) == v, EncodedLength as a number for containers.",
+ "DESIGN.md section 3, C02")
+CLAIMS["C04"] = ("same engines as C02 (comparator lattice interpretation, sort-before-emit, constants) plus writer/reader table agreement for the reserved forms",
+ "What the repository owns of DAG-JSON, decided structurally: the registered 0x0129 encoder/decoder run with lexical sorting, links and bytes as constants; the lexical less is exactly bytewise; keys are emitted from the sorted collection after the sort; the reserved key strings and base64 encoding the encoder writes are the ones the decoder's look-ahead recognises; the encoder keeps no state between calls; exhaustive kind dispatch. Number and string formatting are refmt's (integral floats printed without a fraction are observed there and out of static reach).",
+ "Trusted: go/ssa + go/types, refmt/json, sort.Slice. Not covered: number/string formatting, round-trip equality as values.",
+ "DESIGN.md section 3, C04")
+
 NOT_APPLICABLE = {
  "C13": "concerns the output of running the code generator on arbitrary schemas and the run-time equivalence of two engines; the generator's logic lives in text/template strings, so no typed program exists to analyse before execution (DESIGN.md section 4)",
 }
